@@ -401,9 +401,6 @@ def _check_frame(rec, r, fk, case, nontrivial, keep):
     if obs != exp:
         part = next((i for i, (a, b) in enumerate(zip(obs, exp)) if a != b), 0)
         return bad("TransferFrame.unpack/fields/" + ("?", "header", "insert-zone", "tfdf", "ocf", "fecf")[part], obs, exp)
-    keep.hold("TransferFrame.unpack", u, _obs_frame, case)
-    keep.hold("TransferFrame.unpack.header", u.header, _obs_any_hdr, case)
-    keep.hold("TransferFrame.unpack.tfdf", u.tfdf, _obs_tfdf, case)
     rec.outcome(f"frame-ok:{fk}:iz={len(iz) if iz else 0}:ocf={int(ocf is not None)}:fecf={len(fecf) if fecf else 0}")
     try:
         # a decoded frame is a frame like any other: length, data-field length, frame-length update, re-pack
@@ -425,6 +422,10 @@ def _check_frame(rec, r, fk, case, nontrivial, keep):
                 bad("unpack-then-pack/octets", bytes(u.pack(frame_type=ft)), ref)
     except Exception as e:
         bad("unpack-then-pack/exception/" + type(e).__name__, repr(e), ref)
+    # held from here on (after the check's own frame-length update): the later calls of this case and of the next one must not change them
+    keep.hold("TransferFrame.unpack", u, _obs_frame, case)
+    keep.hold("TransferFrame.unpack.header", u.header, _obs_any_hdr, case)
+    keep.hold("TransferFrame.unpack.tfdf", u.tfdf, _obs_tfdf, case)
     # mismatching managed parameters
     allowed = (ValueError,) + UU.uslp_errors()
     for kind, ftk, pk, kw in mm:
